@@ -13,7 +13,8 @@
 
    cfF = one-off job with the repaired timer branch (the code after the fix: commit),
    cfU = one-off job as found in the pinned tree, cfP = periodic job. *)
-From Verif Require Import Lib.Base Lib.Sched Lib.Reach Model.C02_Scheduler Model.C02_Script Proofs.C02.
+From Verif Require Import Lib.Base Lib.Sched Lib.Reach Model.C02_Scheduler Model.C02_Script Proofs.C02 Proofs.C02_Script.
+From Verif Require Import Check.C02 Proofs.C02_Check.
 
 (* never twice: under every schedule jobFunc of a one-off job is called at most once, and at most
    one call is in progress; no send on / close of a closed channel ever happens.  Holds for the
@@ -269,6 +270,39 @@ Theorem C02_obs_periodic_runjob_can_block :
     quiescent cfP s = true /\ r_pc s = RSend /\ g_pc s = GCtxFin /\ lock_free s = false.
 Proof. exists periodic_block_schedule. exact periodic_block. Qed.
 Print Assumptions C02_obs_periodic_runjob_can_block.
+
+(* ---------------------------------------------------------------------------------------------
+   Timed scripts (Model/C02_Script.v): what the implementation is compared with.  A script is any
+   list of calls at any instants on a one-off or periodic job; [finals sc] are the states in which
+   the script can end over ALL interleavings of the events that share an instant, and
+   [outcomes sc] what is observable of them. *)
+
+(* every final state of every script is a state of the job machine reached by some schedule, and
+   the recorded start instants are the machine's run counter: the theorems above apply to the
+   outcome sets the implementation is checked against *)
+Theorem C02_script_states_reachable :
+  forall sc t, In t (finals sc) ->
+    (exists sch, t_core t = run (step (sc_cfg sc)) sch (init (sc_cfg sc)))
+    /\ runs (t_core t) = sat2 (N.of_nat (length (t_starts t))).
+Proof. exact script_inv_holds. Qed.
+Print Assumptions C02_script_states_reachable.
+
+(* never twice, at script level: in every outcome the model predicts for ANY script, a one-off job
+   has at most one start, nothing overlaps, no channel operation panics *)
+Theorem C02_script_outcomes_never_twice :
+  forall sc o, In o (outcomes sc) ->
+    o_panic o = false /\ o_overlap o <= 1 /\ (sc_kind sc = OneOff -> (length (o_starts o) <= 1)%nat).
+Proof. exact script_never_twice. Qed.
+Print Assumptions C02_script_outcomes_never_twice.
+
+(* ... and therefore in every OBSERVED outcome that the correspondence check accepts *)
+Theorem C02_checked_observation_never_twice :
+  forall c sc os, agree c = true -> c_body c = Timed sc os ->
+    forall ob, In ob os ->
+      o_panic (ob_out ob) = false /\ o_overlap (ob_out ob) <= 1
+      /\ (sc_kind sc = OneOff -> (length (o_starts (ob_out ob)) <= 1)%nat).
+Proof. exact checked_never_twice. Qed.
+Print Assumptions C02_checked_observation_never_twice.
 
 (* ---------------------------------------------------------------------------------------------
    Non-vacuity. *)
